@@ -32,7 +32,9 @@ def check(F, rep, tier):
     san.zero_strip_result(F, rep, "R16.5")
     san.zero_strip_paths(F, rep, "R16.5")
     san.replace_result_origin(F, rep, "R16.1")
+    san.phase_guards(F, rep, "R16.7")
     wrapper_rules(F, rep)
+    core.borrow(F, rep, "c15", "C15", "R16.6", ("R15.5:custom-params-detection",), "the template function builds a custom sanitiser whenever one of the four settings is given, whatever its value")
     return core.finish(rep, explanation=EXPL, assumptions=ASSUME, trusted=TRUST)
 
 ALTERING = ("::filter", "::and_then", "::or", "::or_else", "::xor", "::min", "::max", "::then", "::then_some", "::take", "::skip", "::collect", "::trim", "::trim_end",
